@@ -181,30 +181,64 @@ example : (run Cfg.repaired { d := dStep }
     [.sequence true [.num (3 / 10) false, .num (1 / 2) false] [.num 100 true, .num 100 true] (.num 2 true),
      .advance 1000]).calls = [.num (3 / 5) false, .num 1 false, .num (3 / 5) false, .num 1 false] := by decide +kernel
 
-/-! ### 6. over whole histories: the driver only ever sees legitimate values -/
+/-! ### 6. over whole histories: the driver only ever sees legitimate values of the definition in force -/
 
-/-- **driver_sees_only_domain_values.** Start from any port with an empty call log and no sequence; after ANY history of
-requests (value writes, sequence writes, enable/disable, time passing; any JSON values, any interleaving) every value the
-driver has been handed is the transformed-and-coerced image of a JSON value of the port's domain: a refused or
+/-- **driver_sees_only_domain_values.** Take a port in ANY state with no sequence installed (a fresh port, or a port just
+redefined, see `after_redefine`); after ANY history of requests that keep its definition (value writes, sequence writes,
+enable/disable, time passing; any JSON values, any interleaving) the driver's call log is the old log followed by values
+each of which is the transformed-and-coerced image of a JSON value of the domain of the definition in force: a refused or
 out-of-domain value never reaches the driver, neither at once nor later through a sequence. -/
-theorem driver_sees_only_domain_values (d : PortDef) (rs : List Req) (hwf : WF d) (htw : TwRespectsJson d)
-    (hj : ∀ r, r ∈ rs → r.isJson) :
-    ∀ x, x ∈ (run Cfg.repaired { d := d } rs).calls → LegitCall d x := by
-  have hinv : Inv d ({ d := d } : PState) := ⟨⟨d.enabled, rfl⟩, by simp, by simp⟩
-  have := inv_run d _ rs hwf hinv hj
-  intro x hx
-  exact good_legit d x hwf htw (this.2.1 x hx)
+theorem driver_sees_only_domain_values (st : PState) (rs : List Req) (hwf : WF st.d) (htw : TwRespectsJson st.d)
+    (hp : st.pend = []) (hj : ∀ r, r ∈ rs → r.isJson ∧ r.keepsDef) :
+    ∃ new, (run Cfg.repaired st rs).calls = st.calls ++ new ∧ ∀ x, x ∈ new → LegitCall st.d x := by
+  have hinv : Inv st.d st.calls st := ⟨⟨st.d.enabled, rfl⟩, ⟨[], by simp, by simp⟩, by simp [hp]⟩
+  obtain ⟨_, ⟨new, hnew, hc⟩, _⟩ := inv_run st.d st.calls st rs hwf hinv hj
+  exact ⟨new, hnew, fun x hx => good_legit st.d x hwf htw (hc x hx)⟩
+
+/-- **after_redefine.** When the port is removed and created again under the same id with definition `d` (DELETE + POST,
+or a backup restore), whatever the earlier history was — earlier definition, accepted values, a running sequence — every
+value the driver is handed from then on (until the next redefinition) is legitimate for `d`, the definition in force,
+not for any earlier one; and nothing of the old port is written any more. -/
+theorem after_redefine (st : PState) (d : PortDef) (rs : List Req) (hwf : WF d) (htw : TwRespectsJson d)
+    (hj : ∀ r, r ∈ rs → r.isJson ∧ r.keepsDef) :
+    ∃ new, (run Cfg.repaired st (.redefine d :: rs)).calls = st.calls ++ new ∧ ∀ x, x ∈ new → LegitCall d x := by
+  have h1 : (step Cfg.repaired st (.redefine d)).1 = { st with d := d, pend := [] } := by
+    simp [step, handle, flush]
+  simp only [run, h1]
+  exact driver_sees_only_domain_values { st with d := d, pend := [] } rs hwf htw rfl hj
 
 -- non-vacuity: a history (of JSON values proper) mixing refused and accepted requests; only the accepted values arrive
 example : ∀ r, r ∈ [Req.value true (.num (1 / 4) false), .value true (.num (3 / 10) false), .disable, .enable,
-    .sequence true [.num (1 / 2) false] [.num 100 true] (.num 1 true), .advance 101] → r.isJson := by
+    .sequence true [.num (1 / 2) false] [.num 100 true] (.num 1 true), .advance 101] → r.isJson ∧ r.keepsDef := by
   intro r hr
   simp only [List.mem_cons, List.mem_nil_iff, or_false] at hr
-  rcases hr with rfl | rfl | rfl | rfl | rfl | rfl <;> simp [Req.isJson, JVal.isJson]
+  rcases hr with rfl | rfl | rfl | rfl | rfl | rfl <;> simp [Req.isJson, JVal.isJson, Req.keepsDef]
 example : (run Cfg.repaired { d := dStep }
     [.value true (.num (1 / 4) false), .value true (.num (3 / 10) false), .disable, .value true (.num (1 / 2) false),
      .enable, .value true (.num 11 true), .value true (.num 10 true)]).calls =
     [.num (3 / 5) false, .num 20 false] := by decide +kernel
+-- a port 0..10 step 0.1 redefined as the integer port 0..10 while a sequence runs: 0.3 was fine before, is refused after,
+-- the rest of the old sequence is never written, 7 is written
+example : (run Cfg.repaired { d := dStep }
+    [.sequence true [.num (3 / 10) false, .num (1 / 2) false] [.num 100 true, .num 100 true] (.num 1 true),
+     .redefine dInt, .value true (.num (3 / 10) false), .advance 1000, .value true (.num 7 true)]).calls =
+    [.num (3 / 5) false, .num 7 true] := by decide +kernel
+
+/-! ### 6b. overlapping requests: exactly one driver call per accepted request -/
+
+/-- **one_call_per_accepted_request.** A burst of value requests (however they overlap: the model serves them in the
+order they were submitted) on a port with no sequence installed hands the driver exactly one value per request that is
+served (`served`: known port, enabled, writable, value valid, transform evaluates) — its own transformed-coerced value, in
+request order — and nothing for the refused ones. No accepted request is merged with, or superseded by, another. -/
+theorem one_call_per_accepted_request (cfg : Cfg) (st : PState) (rs : List (Bool × JVal)) (hp : st.pend = []) :
+    run cfg st (rs.map fun r => .value r.1 r.2) =
+      { st with calls := st.calls ++ rs.filterMap (served cfg st.d) } :=
+  run_values_calls cfg st rs hp
+
+-- non-vacuity: four overlapping writes, one of them invalid: three driver calls, in order
+example : (run Cfg.repaired { d := dInt } ([(true, .num 1 true), (true, .num 2 true), (true, .num 11 true),
+    (true, .num 4 false)].map fun r => .value r.1 r.2)).calls = [.num 1 true, .num 2 true, .num 4 true] := by
+  decide +kernel
 
 /-! ### 7. the defects of the unrepaired code (counter-examples, replayed on the real code by the harness corpus) -/
 
